@@ -4,6 +4,8 @@ AuditWorld, whole-population audit: every card gets a manual record or is declar
 transcription faults; CVRs include lost cards (phantoms, inside or outside pools) and ONEAudit
 pooled batches; margins and pool means come from the real code.  Oracle: the reduction identity
 over the whole population of (CVR, MVR) pairs."""
+import copy
+
 import numpy as np
 
 from auditsim import repo as R
@@ -34,11 +36,23 @@ COMPONENTS = {
 }
 PROBES = ["pool contains phantom", "phantom outside pools", "style off with heterogeneous styles", "manual record lacks contest",
           "unfindable card", "pooled batch", "super-majority", "IRV", "mean(B) <= 1/2 (assertion false on the paper)",
-          "negative margin (CVRs contradict the reported outcome)"]
+          "negative margin (CVRs contradict the reported outcome)", "pooled batch of more than 100000 cards",
+          "the CVRs themselves stand in for the manual records"]
 
 
 def generate(rng, tier):
     cfg = TIERS[tier]
+    if rng.chance(cfg.get("p_big", 0.002)):
+        # a county-sized pooled batch (kept compact in the case, expanded when executed): batch means that differ from
+        # an assorter value by a few parts in a million are still different
+        case = G.gen_case(rng, max_cards=12, max_rounds=1, audit_types=[(W.ONEAUDIT, 1)], kinds=[(W.PLURALITY, 1)], max_contests=2,
+                          homogeneous_when_style_off=False, p_shortfall=0.3)
+        case["rounds"] = []
+        case["rehearsal"] = None
+        case["margins_via_tally"] = False
+        case["big_pool"] = {"n": rng.randint(100000, 130000), "lead": rng.pick([1, 1, 1, 2, 0, 3]), "blank_every": rng.pick([2, 3, 7]),
+                            "seed": rng.getrandbits(32)}
+        return case
     case = G.gen_case(rng, max_cards=cfg["max_cards"], max_rounds=1, audit_types=[(W.COMPARISON, 1), (W.ONEAUDIT, 1)],
                       homogeneous_when_style_off=False, p_shortfall=0.3)
     case["rounds"] = []
@@ -52,6 +66,44 @@ def generate(rng, tier):
     tally_ok = all(c["choice_function"] in (W.PLURALITY, W.APPROVAL) for c in case["world"]["contests"].values())
     case["margins_via_tally"] = bool(tally_ok and rng.chance(0.35))
     return case
+
+
+def expand_big(case):
+    """the compact 'big_pool' description as ordinary case data: one more batch, pooled, whose cards list the first
+    contest only and split almost evenly between its reported winner and a loser; every blank_every-th manual record is
+    blank in that contest"""
+    bp = case.get("big_pool")
+    if not bp:
+        return case
+    c = copy.deepcopy(case)
+    world = c["world"]
+    cid = sorted(world["contests"])[0]
+    cs = world["contests"][cid]
+    losers = [x for x in cs["candidates"] if x not in cs["winner"]]
+    if not losers or not cs["winner"]:
+        return c
+    w, l = cs["winner"][0], losers[0]
+    n = int(bp["n"])
+    nw = (n + int(bp["lead"])) // 2
+    tab, batch = "900", "1"
+    c["batches"].append({"tab": tab, "batch": batch, "n": n})
+    for pos in range(1, n + 1):
+        id_ = f"{tab}-{batch}-{pos}"
+        votes = {cid: {w: 1}} if pos <= nw else {cid: {l: 1}}
+        c["cvrs"].append({"id": id_, "votes": votes, "tally_pool": f"{tab}-{batch}", "pool": True, "card_in_batch": pos})
+        c["cards"].append({"id": id_, "tab": tab, "batch": batch, "pos": pos})
+        if pos % int(bp["blank_every"]) == 0:
+            c["mvr"][id_] = {"phantom": False, "votes": {cid: {}}, "faults": ["F3"]}
+        else:
+            c["mvr"][id_] = {"phantom": False, "votes": {cid: dict(votes[cid])}, "faults": []}
+    world["max_cards"] += n
+    for k, x in world["contests"].items():
+        if x.get("cards") is not None and (k == cid or not world["use_style"]):
+            x["cards"] += n
+    c["numbering"] = {"mode": "sha256", "seed": int(bp["seed"])}
+    c["mvr_via_from_dict"] = False
+    c["initial_estimate"] = False
+    return c
 
 
 class Obs:
@@ -69,6 +121,10 @@ class Obs:
 def execute(case):
     ns = R.load()
     out = Outcome()
+    if case.get("big_pool"):
+        case = expand_big(case)
+        out.probe("pooled batch of more than 100000 cards")
+        out.shape("big-pool")
     run = AuditRun(ns, case, out, observers=[Obs(out)])
     try:
         run.setup()
@@ -135,26 +191,39 @@ def execute(case):
                     if not close(mean, ref):
                         out.violate("C03.b", f"pool-mean/{kind}/style={style}",
                                     f"{cid}/{key}: mean of pool {pool} is {mean!r}, the pooled CVRs listing the contest average {ref!r}")
-            B, A = [], []
-            try:
-                with W.quiet():
-                    for i in idx:
-                        m, c = mvrs[i], cvrs[i]
-                        B.append(asn.overstatement_assorter(m, c, use_style=style))
-                        if m.phantom:
-                            A.append(0.0)
-                            out.probe("unfindable card")
-                        elif style and not m.has_contest(cid):
-                            A.append(0.0)
-                            out.probe("manual record lacks contest")
-                        else:
-                            A.append(asn.assorter.assort(m))
-            except Exception as e:
-                out.raised("overstatement_assorter", e)
-                out.violate("C03.x", f"overstatement/{kind}/style={style}/{type(e).__name__}",
-                            f"{cid}/{key}: the overstatement assorter raised {e!r} on a (CVR, manual record) pair of the "
-                            f"population (style={style}), so mean(B) does not exist")
+            passes = [("", mvrs)]
+            if not case.get("big_pool"):
+                # an error-free audit is rehearsed by letting the CVRs stand in for the manual records (same objects)
+                passes.append(("/cvrs-as-mvrs", cvrs))
+                out.probe("the CVRs themselves stand in for the manual records")
+            results = {}
+            failed = False
+            for suffix, recs in passes:
+                B, A = [], []
+                try:
+                    with W.quiet():
+                        for i in idx:
+                            m, c = recs[i], cvrs[i]
+                            B.append(asn.overstatement_assorter(m, c, use_style=style))
+                            if m.phantom:
+                                A.append(0.0)
+                                out.probe("unfindable card")
+                            elif style and not m.has_contest(cid):
+                                A.append(0.0)
+                                out.probe("manual record lacks contest")
+                            else:
+                                A.append(asn.assorter.assort(m))
+                except Exception as e:
+                    out.raised("overstatement_assorter", e)
+                    out.violate("C03.x", f"overstatement/{kind}/style={style}/{type(e).__name__}{suffix}",
+                                f"{cid}/{key}: the overstatement assorter raised {e!r} on a (CVR, manual record) pair of the "
+                                f"population (style={style}), so mean(B) does not exist")
+                    failed = True
+                    break
+                results[suffix] = (B, A)
+            if failed:
                 continue
+            B, A = results[""]
             # the margin can also be asked for directly; both routes must give the v the identity uses
             try:
                 with W.quiet():
@@ -177,9 +246,28 @@ def execute(case):
                 out.violate("C03.a", f"{world['audit_type']}/{kind}/style={style}",
                             f"{cid}/{key}: mean(B)-1/2 = {lhs!r} but (2 mean(A)-1)/(2(2u-v)) = {rhs!r} "
                             f"(u={u}, v={v}, {len(idx)} cards)")
+            if "/cvrs-as-mvrs" in results:
+                B2, A2 = results["/cvrs-as-mvrs"]
+                lhs2 = float(np.mean(B2)) - 0.5
+                rhs2 = (2 * float(np.mean(A2)) - 1) / (2 * (2 * u - v))
+                out.ev("identity(self)", [cid, key, lhs2, rhs2])
+                if not close(lhs2, rhs2):
+                    out.violate("C03.a", f"{world['audit_type']}/{kind}/style={style}/cvrs-as-mvrs",
+                                f"{cid}/{key}: with the CVRs standing in for the manual records, mean(B)-1/2 = {lhs2!r} but "
+                                f"(2 mean(A)-1)/(2(2u-v)) = {rhs2!r} (u={u}, v={v}, {len(idx)} cards)")
     out.shape(f"pool={any(c.pool for c in cvrs)} ph={int(run.n_phantoms > 0)} faults={sorted(out.faults)}")
     return out
 
 
 def reducers(case):
+    if case.get("big_pool"):
+        c = copy.deepcopy(case)
+        c["big_pool"] = None
+        yield c
+        for f in (2, 10):
+            if case["big_pool"]["n"] // f >= 50:
+                c = copy.deepcopy(case)
+                c["big_pool"]["n"] = case["big_pool"]["n"] // f
+                yield c
+        return
     yield from G.reducers(case, keep_rounds=0)
